@@ -23,6 +23,9 @@ RULE = ('real cache files of a pool of LALR grammars (imports of local files and
         'hex of the body, newline, two pickles located with pickletools); (2) every/sampled truncation offset; (3) single-byte '
         'changes at every header offset and sampled body offsets; (4) random histories of <= 6 constructions over <= 4 '
         '(grammar, options, imported text, lark/python version) tuples on ONE path with crashes (file cut after a write); '
+        'plus fixed histories: A,B,B,A for every option that reaches the key (incl. list-valued start / import_paths, source_path), '
+        'edits of files imported through import_paths, relative to Lark.open, nested, and through a user FromPackageLoader '
+        '(PackageResource entries of the used-files table), version / python-version / white-space changes; '
         'each construction is compared with the uncached build on probe inputs and with the model (hit/miss, file bytes); '
         'non-trivial = distinct damaged-file case, or distinct history containing both a hit and a rebuild')
 TRUSTED_BASE = ['cache section of Lark.__init__, _bytes_digest, sha256_digest, verify_used_files, FS.open, Lark.save pinned by exact '
@@ -70,12 +73,16 @@ class Probe:
         LL.load_grammar = load_grammar
         self.version0 = lark.__version__
         self.vi0 = sys.version_info
+        self.paths = []
 
     def close(self):
         self.LL.Lark._load = self.orig_load
         self.LL.load_grammar = self.orig_lg
         self.lark.__version__ = self.version0
         sys.version_info = self.vi0
+        for p in self.paths:
+            if p in sys.path:
+                sys.path.remove(p)
 
 
 class _VI(tuple):
@@ -104,11 +111,14 @@ def _mk_callbacks(name):
     return {'A': (lambda t: Token(t.type, t + '!'))} if name == 'bangA' else {'X': (lambda t: Token('X', '<' + t + '>'))}
 
 
+def _edit_z(t):
+    # module level: the option value ends up in the pickled data, a local function could not be pickled
+    if t.name in ('A', 'X') and hasattr(t.pattern, 'value'):
+        t.pattern.value = 'z'
+
+
 def _mk_edit(name):
-    def ed(t):
-        if t.name in ('A', 'X') and hasattr(t.pattern, 'value'):
-            t.pattern.value = 'z'
-    return ed
+    return _edit_z
 
 
 def _mk_postlex(name):
@@ -120,12 +130,25 @@ def _mk_postlex(name):
     return PL()
 
 
-def realise(spec, root):
+def _mk_tree_class(name):
+    from lark import Tree
+
+    class MyTree(Tree):
+        pass
+    return MyTree
+
+
+def realise(spec, root, pkg='c12pkg'):
     if isinstance(spec, dict):
         if 'path' in spec:
             return os.path.join(root, spec['path'])
         if 'paths' in spec:
             return [os.path.join(root, p) for p in spec['paths']]
+        if 'pkgloaders' in spec:     # import_paths=[FromPackageLoader(<scratch package>, search_paths), ...]
+            from lark.load_grammar import FromPackageLoader
+            return [FromPackageLoader(pkg, tuple(sp)) for sp in spec['pkgloaders']]
+        if 'treeclass' in spec:
+            return _mk_tree_class(spec['treeclass'])
         if 'T' in spec:
             return _mk_transformer(spec['T'])
         if 'cb' in spec:
@@ -143,7 +166,10 @@ def realise(spec, root):
 def canon(x):
     from lark import Tree, Token
     if isinstance(x, Tree):
-        return ['tree', str(x.data), [canon(c) for c in x.children]]
+        tag = 'tree' if type(x) is Tree else 'tree:' + type(x).__name__
+        m = getattr(x, '_meta', None)
+        pos = [m.line, m.column, m.end_line, m.end_column] if m is not None and not getattr(m, 'empty', True) else None
+        return [tag, str(x.data), [canon(c) for c in x.children]] + ([pos] if pos else [])
     if isinstance(x, Token):
         return ['tok', str(x.type), str(x)]
     if x is None:
@@ -171,9 +197,26 @@ class World:
         os.makedirs(self.root)
         self.probe = probe
         self.memo = {}
+        # a scratch package for imports through FromPackageLoader: `@PKG` in file names stands for it
+        self.pkg = 'c12pkg_%s_%d' % (re.sub(r'\W', '_', tag), os.getpid())
+        sys.modules.pop(self.pkg, None)
+        self.on_path = False
+
+    def rel(self, rel):
+        return rel.replace('@PKG', self.pkg)
+
+    def need_pkg(self):
+        if not self.on_path:
+            import importlib
+            sys.path.insert(0, self.root)
+            self.probe.paths.append(self.root)
+            importlib.invalidate_caches()
+            self.on_path = True
 
     def path(self, rel):
-        return os.path.join(self.root, rel)
+        if '@PKG' in rel:
+            self.need_pkg()
+        return os.path.join(self.root, self.rel(rel))
 
     def set_files(self, files):
         for rel, text in (files or {}).items():
@@ -226,10 +269,12 @@ class World:
         from lark import Lark
         lark = self.probe.lark
         kw = {}
+        if 'pkgloaders' in json.dumps(ev['opts']):
+            self.need_pkg()
         for k, spec in ev['opts']:
-            if k == 'cache' and not cached:
+            if k in ('cache', 'cache_grammar') and not cached:
                 continue
-            kw[k] = realise(spec, self.root)
+            kw[k] = realise(spec, self.root, self.pkg)
         lark.__version__ = ev.get('version') or self.probe.version0
         if ev.get('pyver'):
             sys.version_info = _VI(tuple(ev['pyver']) + (0, 'final', 0))
@@ -339,7 +384,7 @@ def run_history(world, hist, cache_rel='cache.bin', owner=None):
             owner[0] = ident
         probes = ev.get('probes', [])
         o = dict(hit=c['hit'], exc=c['exc'], before=before, after=after, wrote=(after != before), crash=None,
-                 items=c['items'], ident=ident)
+                 items=c['items'], ident=ident, gtext=grammar_text(world, ev))
         if c['exc'] != u['exc']:
             problems.append(('exception', 'cached construction raised %s, uncached %s' % (c['exc'], u['exc']), i))
         elif c['exc'] is None:
@@ -396,14 +441,14 @@ def BL(b):
     return '(%s, %s)' % (N(len(b)), LT(['0x' + b[i:i + 7].hex() for i in range(0, len(b), 7)], 'int') + ('%uint63' if b else ''))
 
 
-def coq_cfg(world, ev, items):
+def coq_cfg(world, ev, items, text=None):
     ver = ev.get('version') or world.probe.version0
     pv = repr(tuple(ev.get('pyver') or world.probe.vi0[:2]))
-    return '(mk %s %s %s %s)' % (S(grammar_text(world, ev)), LT(['(%s, %s)' % (S(k), S(v)) for k, v in items], SS), S(ver), S(pv))
+    return '(mk %s %s %s %s)' % (S(text if text is not None else grammar_text(world, ev)), LT(['(%s, %s)' % (S(k), S(v)) for k, v in items], SS), S(ver), S(pv))
 
 
-def ascii_ok(world, ev, items):
-    t = grammar_text(world, ev)
+def ascii_ok(world, ev, items, text=None):
+    t = text if text is not None else grammar_text(world, ev)
     return t.isascii() and all(k.isascii() and v.isascii() for k, v in items)
 
 
@@ -480,11 +525,58 @@ def pool():
     P.append(('tr', 'start: A+\nA: "a"\n', [['transformer', {'T': 'up'}]], {}, ['aa', 'b']))
     P.append(('cb', 'start: A+\nA: "a"\n', [['lexer_callbacks', {'cb': 'bangA'}]], {}, ['aa', 'b']))
     P.append(('pos', 'start: A+\nA: "a"\n', [['propagate_positions', True]], {}, ['aa', 'b']))
+    # the same text resolved through different import_paths
+    ab = {'impA/x.lark': IMP['x'], 'impB/x.lark': IMP['y']}
+    P.append(('ip-A', '%import x.X\nstart: X+\n', [['import_paths', {'paths': ['impA']}]], ab, ['x', 'xx', 'y', 'xy']))
+    P.append(('ip-B', '%import x.X\nstart: X+\n', [['import_paths', {'paths': ['impB']}]], ab, ['x', 'xx', 'y', 'xy']))
+    P.append(('ip-AB', '%import x.X\nstart: X+\n', [['import_paths', {'paths': ['impB', 'impA']}]], ab, ['x', 'xx', 'y', 'xy']))
+    # imports through a user FromPackageLoader (used-files entries are PackageResource, not paths), one of them nested
+    pk = {'@PKG/__init__.py': '', '@PKG/grammars/base.lark': 'B: "b"\n',
+          '@PKG/grammars/words.lark': '%import .base.B\nHELLO: "hello" B?\n', '@PKG/g2/words.lark': 'HELLO: "hi"\n'}
+    gpk = '%import words.HELLO\n%import common.WS\n%ignore WS\nstart: HELLO+\n'
+    prob = ['hello', 'hello hello', 'howdy', 'hellob', 'helloc', 'hi']
+    alts = {'@PKG/grammars/words.lark': ['%import .base.B\nHELLO: "howdy" B?\n', 'HELLO: "hello"\n'],
+            '@PKG/grammars/base.lark': ['B: "c"\n']}
+    P.append(('pkg', gpk, [['import_paths', {'pkgloaders': [['grammars']]}]], pk, prob, alts))
+    P.append(('pkg-2', gpk, [['import_paths', {'pkgloaders': [['g2']]}]], pk, prob, alts))
     return P
 
 
+def option_pairs():
+    """every option that reaches the cache key, with two values (where possible giving observably different parsers) on
+    ONE grammar text: (option, grammar, files, probes, extra options A, extra options B)"""
+    ab = {'impA/x.lark': IMP['x'], 'impB/x.lark': IMP['y']}
+    pk = {'@PKG/__init__.py': '', '@PKG/grammars/words.lark': 'HELLO: "hello"\n', '@PKG/g2/words.lark': 'HELLO: "hi"\n'}
+    rel = {'d1/x.lark': IMP['x'], 'd2/x.lark': IMP['y']}
+    O = []
+    O.append(('keep_all_tokens', 'start: "a" "b"\n', {}, ['ab'], [['keep_all_tokens', False]], [['keep_all_tokens', True]]))
+    O.append(('maybe_placeholders', 'start: a [b] a\na: "a"\nb: "b"\n', {}, ['aa', 'aba'], [['maybe_placeholders', True]], [['maybe_placeholders', False]]))
+    O.append(('start', 'a: "a" b\nb: "b"+\n', {}, ['ab', 'b', 'bb'], [['start', 'a']], [['start', 'b']]))
+    O.append(('start', 'a: "a" b\nb: "b"+\n', {}, ['ab', 'b', 'bb'], [['start', ['a']]], [['start', ['b']]]))
+    O.append(('lexer', 'start: "a" NAME\nNAME: /[a-z]+/\n', {}, ['ab', 'aab', 'a'], [['lexer', 'basic']], [['lexer', 'contextual']]))
+    O.append(('g_regex_flags', 'start: WORD+\nWORD: /[a-z]+/\n%ignore " "\n', {}, ['ab', 'AB'], [['g_regex_flags', 0]], [['g_regex_flags', {'reflag': 'I'}]]))
+    O.append(('import_paths', '%import x.X\nstart: X+\n', ab, ['x', 'y', 'xy'], [['import_paths', {'paths': ['impA']}]], [['import_paths', {'paths': ['impB']}]]))
+    O.append(('import_paths', '%import x.X\nstart: X+\n', ab, ['x', 'y', 'xy'], [['import_paths', {'paths': ['impA', 'impB']}]], [['import_paths', {'paths': ['impB', 'impA']}]]))
+    O.append(('import_paths', '%import words.HELLO\nstart: HELLO+\n', pk, ['hello', 'hi'], [['import_paths', {'pkgloaders': [['grammars']]}]], [['import_paths', {'pkgloaders': [['g2']]}]]))
+    O.append(('source_path', '%import .x.X\nstart: X+\n', rel, ['x', 'y'], [['source_path', {'path': 'd1/g.lark'}]], [['source_path', {'path': 'd2/g.lark'}]]))
+    O.append(('propagate_positions', 'start: a+\na: "a"\n', {}, ['aa'], [['propagate_positions', False]], [['propagate_positions', True]]))
+    O.append(('priority', 'start: A | B\nA.2: "a"\nB.1: "a"\n', {}, ['a'], [['priority', 'normal']], [['priority', 'invert']]))
+    O.append(('use_bytes', 'start: "a" "b"\n', {}, ['ab'], [['use_bytes', False]], [['use_bytes', True]]))
+    O.append(('tree_class', 'start: "a"\n', {}, ['a'], [], [['tree_class', {'treeclass': 'MyTree'}]]))
+    O.append(('strict', 'start: A | B\nA: "a"\nB: /a/\n', {}, ['a'], [['strict', False]], [['strict', True]]))
+    O.append(('debug', 'start: "a"\n', {}, ['a'], [['debug', False]], [['debug', True]]))
+    O.append(('ordered_sets', 'start: "a" | "b"\n', {}, ['a', 'b'], [['ordered_sets', True]], [['ordered_sets', False]]))
+    O.append(('cache_grammar', 'start: "a"\n', {}, ['a'], [['cache_grammar', False]], [['cache_grammar', True]]))
+    return O
+
+
+# options of LarkOptions._defaults that cannot be varied under parser='lalr', cache=path (or are the call itself)
+NOT_VARIED = {'parser': 'fixed: the cache needs lalr', 'cache': 'the path under test', 'ambiguity': 'earley/cyk only',
+              'regex': 'needs the optional regex module'}
+
+
 def mk_event(entry, order_rng=None, **kw):
-    name, g, extra, files, probes = entry
+    name, g, extra, files, probes = entry[:5]
     opts = [list(x) for x in BASE] + [list(x) for x in extra]
     if order_rng is not None and order_rng.random() < 0.3:
         opts = [opts[0]] + opts[2:] + [opts[1]]      # kwargs order is part of the hashed string
@@ -623,8 +715,13 @@ def gen_history(rng, P, wild):
         if r < 0.3 and others:
             fam.append(dict(entry=rng.choice(others)))
         elif r < 0.5 and base[3]:
-            rel = list(base[3])[0]
-            fam.append(dict(entry=(base[0], base[1], base[2], {rel: rng.choice(list(IMP.values()))}, base[4])))
+            if len(base) > 5:
+                rel = rng.choice(sorted(base[5]))
+                txt = rng.choice(base[5][rel])
+            else:
+                rel = rng.choice(sorted(base[3]))
+                txt = rng.choice(list(IMP.values()))
+            fam.append(dict(entry=(base[0], base[1], base[2], dict(base[3], **{rel: txt}), base[4])))
         elif r < 0.65:
             fam.append(dict(entry=base, version=rng.choice(['1.3.0', '1.3.1.post1', '2.0'])))
         elif r < 0.75:
@@ -657,7 +754,7 @@ def coq_history(world, hist, obs):
                 tabs.add(d)
     evs = []
     for ev, o in zip(hist['events'], obs):
-        if not ascii_ok(world, ev, o['items']):
+        if not ascii_ok(world, ev, o['items'], o['gtext']):
             return None
         built = 'None'
         if o['wrote']:
@@ -670,7 +767,7 @@ def coq_history(world, hist, obs):
         crash = 'None' if o['crash'] is None else '(Some %s)' % N(o['crash'])
         after = 'None' if o['final'] is None else '(Some %s)' % tabs.fileref(o['final'], o.get('complete'))
         # the environment at the time of this event: recorded while the history ran
-        evs.append('(mkHev %s %s %s %s %s %s)' % (coq_cfg(world, ev, o['items']), o['env'], crash, built,
+        evs.append('(mkHev %s %s %s %s %s %s)' % (coq_cfg(world, ev, o['items'], o['gtext']), o['env'], crash, built,
                                                  'true' if o['hit'] else 'false', after))
     f0 = '(@None fileref)' if hist.get('f0') is None else '(Some %s)' % tabs.fileref(bytes.fromhex(hist['f0']))
     return '(%s, %s, %s, %s)' % (tabs.coq_tu(), tabs.coq_td(), f0, LT(evs, 'hev'))
@@ -679,7 +776,7 @@ def coq_history(world, hist, obs):
 def stream_histories(ctx, probe):
     rng = ctx.rng
     P = pool()
-    n = ctx.scale(30, 400) * (2 if ctx.widen and not ctx.thorough() else 1)
+    n = ctx.scale(24, 400) * (2 if ctx.widen and not ctx.thorough() else 1)
     fixed = []
     # the witnesses of F3 (repaired): option text moved into the grammar / between options
     fixed.append({'f0': None, 'events': [mk_event(P[2]), mk_event(P[3]), mk_event(P[2])]})
@@ -689,10 +786,51 @@ def stream_histories(ctx, probe):
     # imported file edited between constructions; crash while rewriting; recovery
     ex, ey = mk_event(P[6]), mk_event(P[7])
     fixed.append({'f0': None, 'events': [ex, ex, dict(ey, post={'trunc': 200}), ey, ey, ex]})
+    # a grammar imported through a user FromPackageLoader: the package's files are edited between constructions
+    pkg = next(e for e in P if e[0] == 'pkg')
+    w, b = '@PKG/grammars/words.lark', '@PKG/grammars/base.lark'
+    v1 = mk_event(pkg)
+    v2 = mk_event(pkg[:3] + (dict(pkg[3], **{w: pkg[5][w][0]}),) + pkg[4:])
+    v3 = mk_event(pkg[:3] + (dict(pkg[3], **{b: pkg[5][b][0]}),) + pkg[4:])
+    fixed.append({'f0': None, 'events': [v1, v1, v2, v2, v3, v3, v1]})
+    # relative import next to a grammar file opened with Lark.open, and a nested plain-file import: edits of each
+    top = '%import .x.X\nstart: X+\n'
+    o1 = dict(mk_event(('open', '', [], {'d1/g.lark': top, 'd1/x.lark': IMP['x']}, ['x', 'y'])), open='d1/g.lark')
+    o2 = dict(mk_event(('open', '', [], {'d1/g.lark': top, 'd1/x.lark': IMP['y']}, ['x', 'y'])), open='d1/g.lark')
+    o3 = dict(mk_event(('open', '', [], {'d1/g.lark': top + '// edited\n', 'd1/x.lark': IMP['y']}, ['x', 'y'])), open='d1/g.lark')
+    fixed.append({'f0': None, 'events': [o1, o1, o2, o2, o3, o1]})
+    nest = ('nest', '%import x.X\nstart: X+\n', [['import_paths', {'paths': ['imp']}]],
+            {'imp/x.lark': '%import .y.Y\nX: "x" Y\n', 'imp/y.lark': 'Y: "1"\n'}, ['x1', 'x2', 'x'])
+    n1 = mk_event(nest)
+    n2 = mk_event(nest[:3] + (dict(nest[3], **{'imp/y.lark': 'Y: "2"\n'}),) + nest[4:])
+    fixed.append({'f0': None, 'events': [n1, n1, n2, n2, n1]})
+    # another lark version / interpreter version / grammar text differing only in white space or a comment
+    base = mk_event(P[4])
+    fixed.append({'f0': None, 'events': [base, dict(base, version='1.3.0'), dict(base, version='1.3.0'), base]})
+    fixed.append({'f0': None, 'events': [base, dict(base, pyver=[3, 11]), dict(base, pyver=[31, 1]), dict(base, pyver=[3, 11]), base]})
+    sp = mk_event((P[4][0], P[4][1] + ' ', P[4][2], P[4][3], P[4][4]))
+    cm = mk_event((P[4][0], P[4][1] + '// c\n', P[4][2], P[4][3], P[4][4]))
+    fixed.append({'f0': None, 'events': [base, sp, cm, base, cm]})
+    n_fixed_hist = len(fixed)
+    # every option that reaches the key: A, B, B, A on one path with one grammar text
+    covered = set()
+    for name, g, files, probes, oa, ob in option_pairs():
+        covered.add(name)
+        a = mk_event((name + '-A', g, oa, files, probes))
+        bb = mk_event((name + '-B', g, ob, files, probes))
+        fixed.append({'f0': None, 'events': [a, bb, bb, a]})
+    try:
+        from lark.lark import LarkOptions
+        missing = set(LarkOptions._defaults) - covered - set(UNHASHABLE) - set(NOT_VARIED)
+        if missing:
+            ctx.note('options of LarkOptions._defaults without an option-pair history: %s' % sorted(missing))
+    except Exception:   # noqa
+        pass
     cases, meta = [], []
     for hi in range(n + len(fixed)):
         wild = rng.random() < 0.2
         hist = fixed[hi] if hi < len(fixed) else gen_history(rng, P, wild)
+        stream = 'histories' if hi < n_fixed_hist or hi >= len(fixed) else 'option-pairs'
         world = World(ctx, probe, 'h%d' % hi)
         obs, problems = run_history_env(world, hist)
         for stage, det, i in problems:
@@ -703,7 +841,7 @@ def stream_histories(ctx, probe):
             ctx.violation('history:not-valid-after', {'kind': 'history', 'hist': hist, 'then_valid': True}, True,
                           'after the history the file is not a valid cache for the last construction')
         hits = sum(1 for o in obs if o['hit'])
-        ctx.count('histories', key=json.dumps(hist, sort_keys=True), nontrivial=(0 < hits < len(obs)),
+        ctx.count(stream, key=json.dumps(hist, sort_keys=True), nontrivial=(0 < hits < len(obs)),
                   history_len=len(obs), hits=hits, crashes=sum(1 for o in obs if o['crash'] is not None))
         c = coq_history(world, hist, obs)
         if c is not None:
